@@ -93,6 +93,8 @@ _PROP_CACHE = {}
 def run_batch(pid, tier, jobs, workers, chunk, timeout_s, wall_cap):
     """jobs: list of (seed, faulty).  Returns list of per-run dicts in job order."""
     _PROP_CACHE[pid] = load_prop(pid)  # import cryoCAT once, before forking
+    if hasattr(_PROP_CACHE[pid], "warmup"):
+        _PROP_CACHE[pid].warmup()      # e.g. JIT-compile once in the parent
     if workers <= 1:
         return _worker(pid, tier, jobs, timeout_s, True)
     ctx = multiprocessing.get_context("fork")
